@@ -56,7 +56,7 @@ type vHookBeC38 struct {
 	c *Cache
 
 	mu          sync.Mutex
-	plan        []string // per inner Load: "", "error", "after:remove-file", "after:clear", "after:remove-dir", "after:truncate"
+	plan        []string // per inner Load: "", "error", "partial-error", "after:remove-file", "after:clear", "after:remove-dir", "after:truncate"
 	calls       int
 	errors      int
 	fired       int
@@ -75,12 +75,27 @@ func (b *vHookBeC38) Load(ctx context.Context, h backend.Handle, length int, off
 		act = b.plan[b.calls]
 	}
 	b.calls++
-	if act == "error" {
+	if act == "error" || act == "partial-error" {
 		b.errors++
 	}
 	b.mu.Unlock()
 	if act == "error" {
 		return errInnerC38
+	}
+	if act == "partial-error" {
+		// a download that breaks off: the consumer sees the first half and a clean EOF, the
+		// failure only surfaces when Load returns (connection reset noticed on Close)
+		err := b.Backend.Load(ctx, h, length, offset, func(rd io.Reader) error {
+			data, rerr := io.ReadAll(rd)
+			if rerr != nil {
+				return rerr
+			}
+			return fn(bytes.NewReader(data[:len(data)/2]))
+		})
+		if err == nil {
+			err = errInnerC38
+		}
+		return err
 	}
 	err := b.Backend.Load(ctx, h, length, offset, fn)
 	if err == nil && length == 0 && offset == 0 && strings.HasPrefix(act, "after:") && b.c.canBeCached(h.Type) {
@@ -219,9 +234,9 @@ func TestVerifC38Backend(t *testing.T) {
 		switch rapid.IntRange(0, 3).Draw(t, "faultmode") {
 		case 0: // healthy, no interference
 		case 1, 2:
-			hook.plan = rapid.SliceOfN(rapid.SampledFrom([]string{"", "", "after:remove-file", "after:remove-file", "after:clear", "after:truncate", "error"}), 1, 10).Draw(t, "plan")
+			hook.plan = rapid.SliceOfN(rapid.SampledFrom([]string{"", "", "after:remove-file", "after:remove-file", "after:clear", "after:truncate", "error", "partial-error"}), 1, 10).Draw(t, "plan")
 		default:
-			hook.plan = rapid.SliceOfN(rapid.SampledFrom([]string{"", "", "after:remove-file", "after:clear", "after:remove-dir", "after:truncate", "error", "error"}), 1, 10).Draw(t, "plan")
+			hook.plan = rapid.SliceOfN(rapid.SampledFrom([]string{"", "", "after:remove-file", "after:clear", "after:remove-dir", "after:truncate", "error", "error", "partial-error"}), 1, 10).Draw(t, "plan")
 		}
 
 		genLoad := func(f *vFileC38) *vLoadC38 {
